@@ -6,6 +6,7 @@ import (
 	"fmt"
 	"reflect"
 	"sync"
+	"sync/atomic"
 	"testing"
 	"testing/synctest"
 
@@ -33,10 +34,17 @@ type UCfg struct {
 var uVerifyMu sync.Mutex
 var uVerifyLog []*UCfg
 
+// uVerifyHook, when set, runs inside every Verify call (on whatever goroutine
+// the library verifies on).
+var uVerifyHook atomic.Pointer[func(*UCfg)]
+
 func (c *UCfg) Verify() error {
 	uVerifyMu.Lock()
 	uVerifyLog = append(uVerifyLog, c)
 	uVerifyMu.Unlock()
+	if h := uVerifyHook.Load(); h != nil {
+		(*h)(c)
+	}
 	if c.Limit < 0 {
 		return ErrInvalid
 	}
